@@ -86,8 +86,12 @@ var prefixIds = false
 // directed: boundary-directed stream (prefix-related ids on one chain, many batches, out-of-order executions)
 var directed = false
 
+// genesisMode: only events that pass ExternalEvent.Validate (what MsgSubmitExternalEvent.ValidateBasic
+// admits on a real chain): InitGenesis re-validates stored events
+var genesisMode = false
+
 func genTokens(rng *Rng) []*types.TokenInfo {
-	prefixIds = rng.Chance(1, 5) || directed
+	prefixIds = (rng.Chance(1, 5) || directed) && !genesisMode
 	denoms := []string{"hub", "usdx", "eth"}
 	nd := 1 + rng.Intn(3)
 	if prefixIds && nd < 2 {
@@ -127,7 +131,7 @@ func genTokens(rng *Rng) []*types.TokenInfo {
 
 type HubStats map[string]int
 
-func runHubCase(seed uint64, nOps int, hostile bool, gov bool, stats HubStats) (V, V) {
+func runHubCase(seed uint64, nOps int, hostile bool, gov bool, restart bool, stats HubStats) (V, V) {
 	rng := &Rng{s: seed}
 	tokens := genTokens(rng)
 	params := DefaultTestParams(allChains)
@@ -480,6 +484,10 @@ func runHubCase(seed uint64, nOps int, hostile bool, gov bool, stats HubStats) (
 	}
 	if inBlock {
 		do(&HubOp{Kind: 6})
+	}
+	if restart {
+		// genesis export / import at the block boundary that ends the history
+		do(&HubOp{Kind: 8})
 	}
 	var tv []V
 	for _, t := range env.K.GetTokenInfos(env.Ctx).TokenInfos {
